@@ -10,6 +10,7 @@ import EinoV.Proofs.C02
 import EinoV.Proofs.C02Run
 import EinoV.Proofs.C02Compile
 import EinoV.Proofs.C02Eager
+import EinoV.Proofs.C02Just
 import EinoV.Gen.FactsC02
 import EinoV.Expected.C02
 import EinoV.Proofs.C02Workflow
@@ -164,6 +165,62 @@ def gDiamond : GraphDef Nat :=
     branches := [("a", { ends := ["b", "c", "d"], cond := fun v => .ok (if v % 2 == 0 then ["b"] else ["c", "d"]) })] }
 
 example : EinoV.Engine.DagRun.dagWFb (compile 0 gDiamond) = true := by decide
+
+open EinoV.Engine.DagRun in
+/-- **dag_starts_are_justified.** In a run of a well-formed acyclic all-predecessor runner, under
+    any fair completion schedule, *every task of every step is justified by the completions of
+    the older steps* (`Spec/DagStatus.lean`, `Justified`): each control predecessor has completed
+    and routed to the node (control edge or selecting branch), or is skipped (recursively: all
+    its control predecessors skipped or deselecting), or completed and deselected it; at least
+    one actually routed; and the input is the zero value / the single value / the merge of
+    values that data predecessors which completed and routed to it produced.  The trace is read
+    newest step first; `histOf r x older` are START's completion and the outputs of the older
+    steps.  (The converse — a justified node does start — is not proved; see DESIGN.md.) -/
+theorem dag_starts_are_justified {V} (ops : ValOps V) (r : Runner V) (wf : DagWF r) (sched : Sched V)
+    (hf : sched.Fair) (x : V) : JustTr ops r x (runS ops r sched x).trace.reverse :=
+  (run_justified ops r wf sched hf x).1
+
+open EinoV.Engine.DagRun in
+/-- **dag_result_is_end_input.** A returned value is the justified input of END: assembled from
+    the outputs of exactly data predecessors of END that completed and routed to it, with every
+    control predecessor of END completed-and-routed, skipped or deselecting. -/
+theorem dag_result_is_end_input {V} (ops : ValOps V) (r : Runner V) (wf : DagWF r) (sched : Sched V)
+    (hf : sched.Fair) (x v : V) (h : (runS ops r sched x).result = .ok v) :
+    Justified ops r (histOf r x (runS ops r sched x).trace.reverse) END v :=
+  (run_justified ops r wf sched hf x).2 v h
+
+/-! the justification predicate discriminates: on the diamond, with `a`'s output 3 (odd: the
+    branch selects `c` and `d`), starting the deselected `b` is NOT justified -/
+def sumOps : ValOps Nat := { merge := fun l => some (l.foldl (· + ·) 0), zero := 0 }
+def rDiamond : Runner Nat := compile 0 gDiamond
+
+open EinoV.Engine.DagRun in
+example : ¬ Justified sumOps rDiamond [(START, 2), ("a", 3)] "b" 3 := by
+  intro h
+  obtain ⟨_, h2, _⟩ := h
+  have : lookupList "b" rDiamond.ctrlPreds ≠ [] := by decide
+  obtain ⟨p, hp, o, ho, nd, hc, hr⟩ := h2 this
+  have hp' : p = "a" := by
+    have : lookupList "b" rDiamond.ctrlPreds = ["a"] := by decide
+    rw [this] at hp; simpa using hp
+  subst hp'
+  simp only [List.mem_cons, Prod.mk.injEq, List.mem_nil_iff, or_false] at ho
+  rcases ho with ⟨h1, _⟩ | ⟨_, rfl⟩
+  · exact absurd h1 (by decide)
+  · have e : rDiamond.call? "a" = rDiamond.nodes[0]? := by rfl
+    rw [e] at hc
+    have e2 : rDiamond.nodes[0]? = some (rDiamond.nodes[0]'(by decide)) := by simp
+    rw [e2] at hc
+    cases hc
+    rcases hr with h | ⟨sel, hs, hb⟩
+    · exact absurd h (by decide)
+    · have e3 : selectOf (rDiamond.nodes[0]'(by decide)) 3 = .ok ["c", "d"] := by rfl
+      rw [e3] at hs
+      cases hs
+      exact absurd hb (by decide)
+
+/-- and the run on that input starts `a`, then `c` (and returns through `d`), never `b` -/
+example : ((run sumOps rDiamond 2).trace.map (·.map (·.1))) = [["a"], ["c"], ["d"]] := by decide
 
 end EinoV.C02
 
